@@ -1,10 +1,23 @@
 // Copyright Amazon.com, Inc. or its affiliates. All Rights Reserved.
 // SPDX-License-Identifier: Apache-2.0
 
+#[cfg(not(metrique_verif))]
 use std::{
     sync::OnceLock,
     time::{Duration, Instant},
 };
+#[cfg(metrique_verif)]
+use ::{
+    detsim::time::Instant,
+    std::{sync::OnceLock, time::Duration},
+};
+
+/// Verification hook: fix the rate limiter's epoch now (called once at process start).
+#[cfg(metrique_verif)]
+#[doc(hidden)]
+pub fn __verif_pin_epoch() {
+    let _ = time_since_arbitrary_epoch();
+}
 
 // only pub(crate) so that the macro calls can all use the same epoch static
 #[doc(hidden)]
